@@ -12,6 +12,7 @@ and `C10_extracted_mode_fixed` says that this IS the shape extracted from the so
 on a tree whose `wait()` raises per batch; `C10_pinned_stop_not_quiescent` shows why that shape is wrong).
 -/
 import Frequenz.Lemmas.ActorRun
+import Frequenz.Lemmas.ActorCancelAwait
 
 open Actor
 open Extracted.Actor (restartAllowed restartDelayUs delayApplies)
@@ -390,10 +391,56 @@ example :
     (y1.runs.map (·.returned), y2.runs.map (·.returned)) = ([none], [some 5]) := by
   decide
 
+/-! ## `cancel_and_await(task)` -/
+
+/-- The source being checked: early return exactly when `task.done()`, then `task.cancel()`, then `await task`
+swallowing `CancelledError` only. -/
+theorem C10_cancel_and_await_shape :
+    (∀ d n, Extracted.Actor.caEarlyReturn d n = d) ∧ Extracted.Actor.caCancels = true ∧
+    Extracted.Actor.caSwallowsCancelled = true :=
+  ⟨fun d n => by simp [Extracted.Actor.caEarlyReturn], by decide, by decide⟩
+
+/-- Full statement: after every schedule — task not started / running / cleaning up after one or several delivered
+cancellations / already done with any outcome, bare `task.cancel()` calls at any time, any number of concurrent
+`cancel_and_await` calls — a call that has returned left the task DONE; it raised nothing if it left through the
+guard or the task ended by returning or with `CancelledError`, and the task's own Exception / BaseException
+otherwise (the helper propagates those, see its docstring). -/
+def C10_cancel_and_await_statement : Prop :=
+  ∀ (es : List CA.Ev),
+    let s := CA.exec CA.init es
+    ∀ c ∈ s.callers, ∀ early raised tm, c = CA.CallSt.returned early raised tm →
+      ∃ o, s.task.phase = .done o ∧
+        (early = true → raised = none) ∧
+        (early = false → raised = match o with | .exc => some .exc | .baseExc => some .baseExc | _ => none)
+
+theorem C10_cancel_and_await_quiescent : C10_cancel_and_await_statement := by
+  intro es s c hc early raised tm hr
+  obtain ⟨o, ho, h1, h2⟩ := CA.Inv_exec CA.init es CA.Inv_init c hc early raised tm hr
+  refine ⟨o, ho, h1, fun he => ?_⟩
+  rw [h2 he]
+  cases o <;> simp [CA.propagated, CA.caSwallows_true]
+
+/-- A call that does not return at once has requested the cancellation (whatever was requested before). -/
+theorem C10_cancel_and_await_requests_cancel (s : CA.St) (h : s.task.isDone = false) :
+    (CA.step s .call).task.cancelReq = true ∧ (CA.step s .call).callers = s.callers ++ [.awaiting] := by
+  have hg : Extracted.Actor.caEarlyReturn false s.task.cancelling = false := C10_cancel_and_await_shape.1 _ _
+  simp [CA.step, hg, CA.caCancels_true, CA.Task.cancel, h]
+
+/-- Non-vacuity: `task.cancel()` was already called twice and the first cancellation is being cleaned up when two
+callers arrive; neither returns before the task is done; the task's Exception is propagated to both. -/
+example :
+    let s1 := CA.exec CA.init [.taskStep .cont, .cancel, .cancel, .taskStep .cont, .call, .call, .taskStep .cont,
+      .wake 0, .wake 1]
+    let s2 := CA.exec s1 [.taskStep .cont, .advance 7, .taskStep (.fin .exc), .wake 1, .wake 0]
+    (s1.task.phase, s1.task.cancelling, s1.callers) = (.cleaning, 4, [.awaiting, .awaiting]) ∧
+    (s2.task.phase, s2.callers) = (.done .exc, [.returned false (some .exc) 7, .returned false (some .exc) 7]) := by
+  decide
+
 /-! ## the whole property -/
 
 def C10_statement : Prop :=
-  C10_restart_statement ∧ C10_single_run_statement ∧ C10_stop_statement ∧ C10_run_statement
+  C10_restart_statement ∧ C10_single_run_statement ∧ C10_stop_statement ∧ C10_run_statement ∧
+  C10_cancel_and_await_statement
 
 theorem C10_full : C10_statement :=
-  ⟨C10_restart_iff, C10_single_run, C10_stop_quiescent_and_surfaces, C10_run_all⟩
+  ⟨C10_restart_iff, C10_single_run, C10_stop_quiescent_and_surfaces, C10_run_all, C10_cancel_and_await_quiescent⟩
